@@ -79,6 +79,17 @@ M = 123456789
 _ENV = {}
 
 
+class FakeOs:
+    """stands in for `os` inside rpylib.montecarlo.configuration when a replay must reproduce the time-based seed
+    (os.getpid() * int(time.time())) % 123456789 of the run that found the failing input (single-process runs only)"""
+
+    def __init__(self, pid):
+        self.pid = pid
+
+    def getpid(self):
+        return self.pid
+
+
 class FakeTime:
     """stands in for the `time` module inside rpylib.montecarlo.configuration (source of nondeterminism)"""
 
@@ -135,7 +146,7 @@ def env():
         return create_exponential_of_levy_model({"hem": ModelType.HEM, "merton": ModelType.MERTON}[name])(intensity=6)
 
     _ENV.update(np=np, TR=rngtrace.TR, rt=rngtrace, product=product, model=model, CFG=CFG,
-                real_time=CFG.time, logdir=BUILD / PROP / f"wlogs_{os.getpid()}")
+                real_time=CFG.time, logdir=BUILD / PROP / f"run{os.getpid()}" / "wlogs")
     return _ENV
 
 
@@ -169,6 +180,8 @@ def run_std(E, cfg, rng):
     conf = ConfigurationStandard(mc_paths=cfg["n"], seed=cfg["seed"], nb_of_processes=cfg["nproc"])
     eng = Engine(conf, make_process(E, cfg["proc"], cfg["model"]))
     E["CFG"].time = FakeTime([cfg["T"]])
+    if cfg.get("pid") and cfg["nproc"] == 1:
+        E["CFG"].os = FakeOs(cfg["pid"])
     set_ambient(E, rng)
     TR.start(E["logdir"])
     try:
@@ -176,6 +189,7 @@ def run_std(E, cfg, rng):
     finally:
         evs = TR.stop()
         E["CFG"].time = E["real_time"]
+        E["CFG"].os = os
     vals = [np.ravel(st._payoff_statistics.stats).tolist()]
     return evs, TR.collect_workers() if cfg["nproc"] != 1 else {}, vals, float(np.ravel(st.price())[0])
 
@@ -220,6 +234,8 @@ def run_ml(E, cfg, rng):
                                    seed=cfg["seed"], nb_of_processes=cfg["nproc"])
     eng = Engine(conf, cp)
     E["CFG"].time = FakeTime(cfg["T"] if isinstance(cfg["T"], list) else [cfg["T"]])
+    if cfg.get("pid") and cfg["nproc"] == 1:
+        E["CFG"].os = FakeOs(cfg["pid"])
     set_ambient(E, rng)
     TR.start(E["logdir"])
     try:
@@ -231,6 +247,7 @@ def run_ml(E, cfg, rng):
     finally:
         evs = TR.stop()
         E["CFG"].time = E["real_time"]
+        E["CFG"].os = os
     vals = [np.asarray(s._payoff_statistics.stats)[..., 0].reshape(len(s._payoff_statistics.stats), -1)[:, 0].tolist()
             for s in st.mc_statistics]
     return evs, TR.collect_workers() if cfg["nproc"] != 1 else {}, vals, float(np.ravel(st.price())[0]), script
@@ -291,7 +308,7 @@ def oracle(res, cfg, can, workers, vals, continuous):
       F-C08-1 draws before the seed, F-C08-2 re-seeding within a run, F-C08-4 seed 0 ignored (single process),
       F-C08-3 rows of the parent's deques popped by several chunks of a worker pool (fixed-date mode)."""
     def viol(what, finding, **kw):
-        rep = {"finding": finding, "kind": "trace", "config": dict(cfg)}
+        rep = {"finding": finding, "kind": "trace", "config": dict(cfg, pid=cfg.get("pid") or os.getpid())}
         rep.update(kw)
         res.violation(what, rep)
 
@@ -365,7 +382,7 @@ def oracle(res, cfg, can, workers, vals, continuous):
                      level=lvl, value=v, indices=rep[v][:8], distinct_values=len(d), samples=len(vs))
     # seeding discipline of a single-process run: exactly one seed, before the first draw
     if not multi:
-        want = cfg["seed"] if cfg["seed"] is not None else predicted_t(cfg["T"][0] if isinstance(cfg["T"], list) else cfg["T"])
+        want = cfg["seed"] if cfg["seed"] is not None else predicted_t(cfg["T"][0] if isinstance(cfg["T"], list) else cfg["T"], cfg.get("pid"))
         if can.seeds != [want]:
             if cfg["seed"] == 0 and can.seeds and can.seeds[0] != 0:
                 f = "F-C08-4"
@@ -405,7 +422,7 @@ def repeat_oracle(res, E, cfg, runner, rng):
     if out[0] != out[1]:
         k = next((i for i, (a, b) in enumerate(zip(out[0][0], out[1][0])) if a != b), None)
         res.violation("two single-process runs with the same seed give different results", {
-            "finding": None, "kind": "repeat", "config": dict(cfg), "price_1": out[0][1], "price_2": out[1][1],
+            "finding": None, "kind": "repeat", "config": dict(cfg, pid=cfg.get("pid") or os.getpid()), "price_1": out[0][1], "price_2": out[1][1],
             "first_differing_sample": None if k is None else [list(map(str, out[0][0][k])), list(map(str, out[1][0][k]))],
             "candidates": "F-C08-1 (draws before the seed), F-C08-2 (re-seeding per level), F-C08-4 (seed 0 ignored)"})
     return out[0] == out[1]
@@ -413,13 +430,13 @@ def repeat_oracle(res, E, cfg, runner, rng):
 
 # ----------------------------------------------------------------------------------------- case construction
 def std_case(cfg, can):
-    t = predicted_t(cfg["T"])
+    t = predicted_t(cfg["T"], cfg.get("pid"))
     ss = lst([sched_lit(s["sched"]) for s in can.samples])
     return f"(({opt(cfg['seed'], zlit)}, {zlit(t)}, {mode_lit(cfg)}, {ss}), {expected_lit(can)})"
 
 
 def mlc_case(cfg, can):
-    t = predicted_t(cfg["T"])
+    t = predicted_t(cfg["T"], cfg.get("pid"))
     nlev = cfg["Lmax"] + 1
     per = [[] for _ in range(nlev)]
     for s in can.samples:
@@ -433,7 +450,7 @@ def mlp_case(cfg, evs, can, script):
     recorded by the scripted criteria (one compute_mc_paths call ends a pass; a False verdict followed by
     a call with one more level = a level was added); the numbers of rows (pre_computation arguments) and
     the schedules of the samples are read from the trace."""
-    t = predicted_t(cfg["T"])
+    t = predicted_t(cfg["T"], cfg.get("pid"))
     toks = []
     k = 0
     for ev in evs:
@@ -681,7 +698,7 @@ def correspond(res):
     # ---- Coq side: the model must produce exactly the traced events and sample positions
     groups_coq = [(g, COQ_GROUPS[g][0], COQ_GROUPS[g][1], cases[g]) for g in COQ_GROUPS if cases[g]]
     res.case_lemmas += len(COQ_GROUPS)
-    bad = coq_bad_indices(PROP, "cases", HEADER, groups_coq, timeout=900)
+    bad = coq_bad_indices(PROP, "cases", HEADER, groups_coq, timeout=900)   # common.run_dir: one directory per invocation
     for g, ty, chk, cs in groups_coq:
         if bad[g]:
             i = bad[g][0]
